@@ -3,13 +3,11 @@ module verifext
 go 1.23.0
 
 require (
+	github.com/rivo/uniseg v0.4.7
 	github.com/tinode/chat v0.0.0
 	golang.org/x/crypto v0.37.0
 )
 
-require (
-	github.com/rivo/uniseg v0.4.7 // indirect
-	github.com/tinode/snowflake v1.0.0 // indirect
-)
+require github.com/tinode/snowflake v1.0.0 // indirect
 
 replace github.com/tinode/chat => /repo
